@@ -79,44 +79,37 @@ theorem readDictLoopBuf_eq (src : Source) (sf fuel depth : Nat) (acc : List (Byt
 
 abbrev T : SB → Prop := fun _ => True
 
-/-- the four ways a call can have ended, for a result already taken apart -/
-theorem relF_cases {α : Type} {d : Bytes} {e0 : Err} {lat drop : Bool} {E : SB → Prop} {s2 : SB} {res : Except Err α}
-    {m : Except Err (α × Bytes)} (hr : RelF d e0 lat drop E (s2, res) m) :
+/-- the three ways a call can have ended, for a result already taken apart -/
+theorem relF_cases {α : Type} {d : Bytes} {e0 : Err} {lat : Bool} {E : SB → Prop} {s2 : SB} {res : Except Err α}
+    {m : Except Err (α × Bytes)} (hr : RelF d e0 lat E (s2, res) m) :
     (∃ v rest, res = .ok v ∧ m = .ok (v, rest) ∧ GoodF d e0 lat s2 ∧ view d s2 = rest) ∨
     (∃ e, res = .error e ∧ m = .error e ∧ GoodF d e0 lat s2 ∧ E s2) ∨
-    (res = .error e0 ∧ GoodF d e0 true s2) ∨
-    (drop = true ∧ res = .error .malformed ∧ GoodF d e0 true s2 ∧ HashEdge d s2 ∧ NotGtF d s2) := by
-  rcases hr with a | b | c
+    (res = .error e0 ∧ GoodF d e0 true s2) := by
+  rcases hr with a | b
   · unfold RelA at a
     cases m with
     | ok p => obtain ⟨v, rest⟩ := p; exact Or.inl ⟨v, rest, a.1, rfl, a.2.1, a.2.2⟩
     | error e => exact Or.inr (Or.inl ⟨e, a.1, rfl, a.2.1, a.2.2⟩)
-  · exact Or.inr (Or.inr (Or.inl b))
-  · exact Or.inr (Or.inr (Or.inr ⟨c.1, c.2.1, c.2.2.1, c.2.2.2.1, c.2.2.2.2⟩))
+  · exact Or.inr (Or.inr b)
 
 theorem inComposite_ne (e : Err) (he : e ≠ .eof) : e.inComposite = e := by
   cases e <;> first | rfl | exact (he rfl).elim
 
-theorem relF_mapErrB {α : Type} {d : Bytes} {e0 : Err} (he0 : e0 ≠ .eof) {lat drop : Bool} {r : SB × Except Err α}
-    {m : Except Err (α × Bytes)} (hr : RelF d e0 lat drop T r m) :
-    RelF d e0 lat drop T (mapErrB r) (m.mapError Err.inComposite) := by
-  rcases hr with a | b | c
+theorem relF_mapErrB {α : Type} {d : Bytes} {e0 : Err} (he0 : e0 ≠ .eof) {lat : Bool} {r : SB × Except Err α}
+    {m : Except Err (α × Bytes)} (hr : RelF d e0 lat T r m) :
+    RelF d e0 lat T (mapErrB r) (m.mapError Err.inComposite) := by
+  rcases hr with a | b
   · left
     unfold RelA mapErrB at *
     cases m with
     | error e => simp only [Except.mapError] at a ⊢; rw [a.1]; exact ⟨rfl, a.2⟩
     | ok p => obtain ⟨v, rest⟩ := p; simp only [Except.mapError] at a ⊢; rw [a.1]; exact ⟨rfl, a.2⟩
-  · right; left
+  · right
     unfold FltB mapErrB at *
     simp only []
     rw [b.1]
     simp only [Except.mapError, inComposite_ne e0 he0]
     exact ⟨trivial, b.2⟩
-  · right; right
-    unfold FltM mapErrB at *
-    simp only []
-    rw [c.2.1]
-    exact ⟨c.1, rfl, c.2.2⟩
 
 section
 variable {d : Bytes} {e0 : Err} {src : Source} (h : FaultyOver d e0 src) {sf : Nat} (hsf : d.length + 2 ≤ sf)
@@ -153,15 +146,15 @@ end
 /-- the five statements at one fuel -/
 def RefAtF (d : Bytes) (e0 : Err) (src : Source) (sf fuel : Nat) : Prop :=
   (∀ lat depth s, GoodF d e0 lat s →
-      RelF d e0 lat true T (readObjectBuf src sf fuel depth s) (readObject fuel depth (view d s))) ∧
+      RelF d e0 lat T (readObjectBuf src sf fuel depth s) (readObject fuel depth (view d s))) ∧
   (∀ lat depth s, GoodF d e0 lat s →
-      RelF d e0 lat true T (readArrayBuf src sf fuel depth s) (readArray fuel depth (view d s))) ∧
+      RelF d e0 lat T (readArrayBuf src sf fuel depth s) (readArray fuel depth (view d s))) ∧
   (∀ lat depth acc ints s, GoodF d e0 lat s → IntsOk acc ints →
-      RelF d e0 lat true T (readArrayLoopBuf src sf fuel depth acc ints s) (readArrayLoop fuel depth acc ints (view d s))) ∧
+      RelF d e0 lat T (readArrayLoopBuf src sf fuel depth acc ints s) (readArrayLoop fuel depth acc ints (view d s))) ∧
   (∀ lat depth s, GoodF d e0 lat s →
-      RelF d e0 lat true T (readDictBuf src sf fuel depth s) (readDict fuel depth (view d s))) ∧
+      RelF d e0 lat T (readDictBuf src sf fuel depth s) (readDict fuel depth (view d s))) ∧
   (∀ lat depth acc s, GoodF d e0 lat s →
-      RelF d e0 lat true T (readDictLoopBuf src sf fuel depth acc s) (readDictLoop fuel depth acc (view d s)))
+      RelF d e0 lat T (readDictLoopBuf src sf fuel depth acc s) (readDictLoop fuel depth acc (view d s)))
 
 section
 variable {d : Bytes} {e0 : Err} {src : Source} (h : FaultyOver d e0 src) {sf : Nat} (hsf : d.length + 2 ≤ sf)
@@ -177,7 +170,7 @@ theorem refF_zero : RefAtF d e0 src sf 0 := by
 include h in
 theorem refF_array (fuel : Nat) (ih : RefAtF d e0 src sf fuel) :
     ∀ lat depth s, GoodF d e0 lat s →
-      RelF d e0 lat true T (readArrayBuf src sf (fuel + 1) depth s) (readArray (fuel + 1) depth (view d s)) := by
+      RelF d e0 lat T (readArrayBuf src sf (fuel + 1) depth s) (readArray (fuel + 1) depth (view d s)) := by
   intro lat depth s gs
   unfold readArrayBuf readArray
   split
@@ -187,7 +180,7 @@ theorem refF_array (fuel : Nat) (ih : RefAtF d e0 src sf fuel) :
 include h hsf in
 theorem refF_arrLoop (fuel : Nat) (ih : RefAtF d e0 src sf fuel) :
     ∀ lat depth acc ints s, GoodF d e0 lat s → IntsOk acc ints →
-      RelF d e0 lat true T (readArrayLoopBuf src sf (fuel + 1) depth acc ints s)
+      RelF d e0 lat T (readArrayLoopBuf src sf (fuel + 1) depth acc ints s)
         (readArrayLoop (fuel + 1) depth acc ints (view d s)) := by
   obtain ⟨ihO, ihA, ihAL, ihD, ihDL⟩ := ih
   intro lat depth acc ints s gs hints
@@ -239,7 +232,7 @@ theorem refF_arrLoop (fuel : Nat) (ih : RefAtF d e0 src sf fuel) :
       intro o
       have := C01L.nextIntsM_le o ints acc hints
       cases o <;> simpa [C01L.nextIntsM] using this
-    rcases relF_cases RO with ⟨o, r, rfl, hm2, g3, v3⟩ | ⟨e, rfl, hm2, g3, _⟩ | ⟨rfl, gl⟩ | ⟨_, rfl, gl, he, hn⟩
+    rcases relF_cases RO with ⟨o, r, rfl, hm2, g3, v3⟩ | ⟨e, rfl, hm2, g3, _⟩ | ⟨rfl, gl⟩
     · rw [hm2]
       simp only []
       split
@@ -251,8 +244,6 @@ theorem refF_arrLoop (fuel : Nat) (ih : RefAtF d e0 src sf fuel) :
       exact relF_err s3 _ g3 trivial
     · simp only []
       exact relF_flt s3 _ gl
-    · simp only []
-      exact relF_m s3 _ gl he hn
   · generalize skipWhiteSpace src sf s = q at he gl
     obtain ⟨s1, e1⟩ := q
     simp only [] at he gl
@@ -318,11 +309,11 @@ section
 variable {d : Bytes} {e0 : Err} {src : Source} (h : FaultyOver d e0 src) {sf : Nat} (hsf : d.length + 2 ≤ sf)
 variable {loop : List (Bytes × Obj) → SB → SB × Except Err (List (Bytes × Obj))}
 variable {mloop : List (Bytes × Obj) → Bytes → Except Err (List (Bytes × Obj) × Bytes)}
-variable (hloop : ∀ lat acc s, GoodF d e0 lat s → RelF d e0 lat true T (loop acc s) (mloop acc (view d s)))
+variable (hloop : ∀ lat acc s, GoodF d e0 lat s → RelF d e0 lat T (loop acc s) (mloop acc (view d s)))
 include hloop
 
 theorem dictContF (acc : List (Bytes × Obj)) (key : Bytes) (lat : Bool) (val : Obj) (s : SB) (gs : GoodF d e0 lat s) :
-    RelF d e0 lat true T (dictContBuf loop acc key val s) (dictContM mloop acc key val (view d s)) := by
+    RelF d e0 lat T (dictContBuf loop acc key val s) (dictContM mloop acc key val (view d s)) := by
   unfold dictContBuf dictContM
   split
   · exact relF_err s _ gs trivial
@@ -331,7 +322,7 @@ theorem dictContF (acc : List (Bytes × Obj)) (key : Bytes) (lat : Bool) (val : 
 include h hsf
 
 theorem dictAfterValF (acc : List (Bytes × Obj)) (key : Bytes) (lat : Bool) (val : Obj) (s3 : SB) (g3 : GoodF d e0 lat s3) :
-    RelF d e0 lat true T (dictAfterValBuf src sf loop acc key val s3) (dictAfterValM mloop acc key val (view d s3)) := by
+    RelF d e0 lat T (dictAfterValBuf src sf loop acc key val s3) (dictAfterValM mloop acc key val (view d s3)) := by
   unfold dictAfterValBuf dictAfterValM
   rcases ws_casesF h hsf s3 g3 with ⟨he, hmw4, gw⟩ | ⟨he, g4, c4, rest4, hmw4, hv4⟩ | ⟨he, gl⟩
   · generalize skipWhiteSpace src sf s3 = q at he gw
@@ -374,11 +365,10 @@ theorem dictAfterValF (acc : List (Bytes × Obj)) (key : Bytes) (lat : Bool) (va
       rw [v5, hv4] at RI
       generalize readIntegerBuf src sf s5 = q at RI
       obtain ⟨s6, ri⟩ := q
-      rcases relF_cases RI with ⟨b, r6, rfl, hmi, g6, v6⟩ | ⟨e, rfl, hmi, g6, _⟩ | ⟨rfl, gl⟩ | ⟨hd, _⟩
+      rcases relF_cases RI with ⟨b, r6, rfl, hmi, g6, v6⟩ | ⟨e, rfl, hmi, g6, _⟩ | ⟨rfl, gl⟩
       rotate_left
       · rw [hmi]; simp only []; exact relF_err s6 _ g6 trivial
       · simp only []; exact relF_flt s6 _ gl
-      · cases hd
       rw [hmi]
       simp only []
       rcases ws_casesF h hsf s6 g6 with ⟨he, hmw7, gw⟩ | ⟨he, g7, c7, rest7, hmw7, hv7⟩ | ⟨he, gl⟩
@@ -467,11 +457,11 @@ theorem dictAfterValF (acc : List (Bytes × Obj)) (key : Bytes) (lat : Bool) (va
   | dict kv => simp only []; rw [← hv4]; exact dictContF hloop acc key lat _ s4 g4
 
 variable {obj : SB → SB × Except Err Obj} {mobj : Bytes → Except Err (Obj × Bytes)}
-variable (hobj : ∀ lat s, GoodF d e0 lat s → RelF d e0 lat true T (obj s) (mobj (view d s)))
+variable (hobj : ∀ lat s, GoodF d e0 lat s → RelF d e0 lat T (obj s) (mobj (view d s)))
 include hobj
 
 theorem dictAfterKeyF (acc : List (Bytes × Obj)) (key : Bytes) (lat : Bool) (s1 : SB) (g1 : GoodF d e0 lat s1) :
-    RelF d e0 lat true T (dictAfterKeyBuf src sf obj loop acc key s1) (dictAfterKeyM mobj mloop acc key (view d s1)) := by
+    RelF d e0 lat T (dictAfterKeyBuf src sf obj loop acc key s1) (dictAfterKeyM mobj mloop acc key (view d s1)) := by
   unfold dictAfterKeyBuf dictAfterKeyM
   rcases ws_casesF h hsf s1 g1 with ⟨he, hmw, gw⟩ | ⟨he, gw, c2, rest2, hmw, hv2⟩ | ⟨he, gl⟩
   · generalize skipWhiteSpace src sf s1 = q at he gw
@@ -500,7 +490,7 @@ theorem dictAfterKeyF (acc : List (Bytes × Obj)) (key : Bytes) (lat : Bool) (s1
   rw [hv2] at RO
   generalize obj s2 = q at RO
   obtain ⟨s3, ro⟩ := q
-  rcases relF_cases RO with ⟨val, r3, rfl, hmo, g3, v3⟩ | ⟨e, rfl, hmo, g3, _⟩ | ⟨rfl, gl⟩ | ⟨_, rfl, gl, he, hn⟩
+  rcases relF_cases RO with ⟨val, r3, rfl, hmo, g3, v3⟩ | ⟨e, rfl, hmo, g3, _⟩ | ⟨rfl, gl⟩
   · rw [hmo]
     simp only []
     rw [← v3]
@@ -510,8 +500,6 @@ theorem dictAfterKeyF (acc : List (Bytes × Obj)) (key : Bytes) (lat : Bool) (s1
     exact relF_err s3 _ g3 trivial
   · simp only []
     exact relF_flt s3 _ gl
-  · simp only []
-    exact relF_m s3 _ gl he hn
 
 end
 
@@ -541,7 +529,7 @@ include h
 
 /-- the head of `ReadStreamData` on a failing reader -/
 theorem readStreamHeadF {lat : Bool} (s : SB) (gs : GoodF d e0 lat s) :
-    RelF d e0 lat false T (readStreamHeadBuf src s) (.error .malformed) := by
+    RelF d e0 lat T (readStreamHeadBuf src s) (.error .malformed) := by
   have K := skipstrF h kw_stream (by decide) s gs
   unfold readStreamHeadBuf
   generalize skipString src kw_stream s = q at K
@@ -568,7 +556,7 @@ include hsf
 /-- `ReadObject` behind a dictionary on a failing reader (after fix D35 = ROB-6: the error of the
     `PeekN(6)` that looks for `stream` is returned): the fault-free outcome or the reader's error -/
 theorem objAfterDictF (dd : List (Bytes × Obj)) (lat : Bool) (s2 : SB) (g2 : GoodF d e0 lat s2) :
-    RelF d e0 lat false T (objAfterDictBuf src sf dd s2) (objAfterDictM dd (view d s2)) := by
+    RelF d e0 lat T (objAfterDictBuf src sf dd s2) (objAfterDictM dd (view d s2)) := by
   obtain ⟨gw, wout⟩ := wsF h hsf s2 g2
   unfold objAfterDictBuf objAfterDictM
   generalize skipWhiteSpace src sf s2 = q at gw wout
@@ -606,20 +594,20 @@ include h hsf
 
 theorem refF_dictLoop (hm0 : e0 ≠ .malformed) (fuel : Nat) (ih : RefAtF d e0 src sf fuel) :
     ∀ lat depth acc s, GoodF d e0 lat s →
-      RelF d e0 lat true T (readDictLoopBuf src sf (fuel + 1) depth acc s) (readDictLoop (fuel + 1) depth acc (view d s)) := by
+      RelF d e0 lat T (readDictLoopBuf src sf (fuel + 1) depth acc s) (readDictLoop (fuel + 1) depth acc (view d s)) := by
   obtain ⟨ihO, ihA, ihAL, ihD, ihDL⟩ := ih
   intro lat depth acc s gs
   have hloop : ∀ lat acc s, GoodF d e0 lat s →
-      RelF d e0 lat true T (readDictLoopBuf src sf fuel depth acc s) (readDictLoop fuel depth acc (view d s)) :=
+      RelF d e0 lat T (readDictLoopBuf src sf fuel depth acc s) (readDictLoop fuel depth acc (view d s)) :=
     fun lat acc s gs => ihDL lat depth acc s gs
   have hobj : ∀ lat s, GoodF d e0 lat s →
-      RelF d e0 lat true T (readObjectBuf src sf fuel depth s) (readObject fuel depth (view d s)) :=
+      RelF d e0 lat T (readObjectBuf src sf fuel depth s) (readObject fuel depth (view d s)) :=
     fun lat s gs => ihO lat depth s gs
   rw [readDictLoopBuf_eq, readDictLoop_eq]
   have RN := readName_fault h hsf s gs
   generalize readNameBuf src sf s = q at RN
   obtain ⟨s1, rn⟩ := q
-  rcases relF_cases RN with ⟨key, r, rfl, hm, g1, v1⟩ | ⟨e, rfl, hm, g1, hview⟩ | ⟨rfl, gl⟩ | ⟨_, rfl, gl, he, hn⟩
+  rcases relF_cases RN with ⟨key, r, rfl, hm, g1, v1⟩ | ⟨e, rfl, hm, g1, hview⟩ | ⟨rfl, gl⟩
   · rw [hm]
     simp only []
     rw [← v1]
@@ -664,32 +652,9 @@ theorem refF_dictLoop (hm0 : e0 ≠ .malformed) (fuel : Nat) (ih : RefAtF d e0 s
       cases e0 <;> first | rfl | exact (hm0 rfl).elim
     simp only [hne, Bool.false_eq_true, if_false]
     exact relF_flt s1 _ gl
-  · -- `ReadName` ended in the ROB-7 outcome: `IsMalformed(err)` holds, the loop is left and
-    -- `SkipString(">>")` runs on a state that stands on a byte other than `>`
-    simp only [beq_self_eq_true, if_true]
-    have K := skipstrF h [62, 62] (by decide) s1 gl
-    have hoff := skipString_latched_srcOff src [62, 62] (by decide) s1 e0 (gl.lat rfl)
-    generalize skipString src [62, 62] s1 = q at K hoff
-    obtain ⟨s2, e2⟩ := q
-    simp only [] at K hoff ⊢
-    obtain ⟨c, t, hc, hne⟩ := hn
-    have he2 : HashEdge d s2 := by
-      obtain ⟨p, p1, p2, p3⟩ := he
-      exact ⟨p, p1, by rw [hoff]; exact p2, by rw [hoff]; exact p3⟩
-    rcases K with ⟨k1, hpre, g2, v2⟩ | ⟨k1, hpre, g2, v2⟩ | ⟨k1, k2⟩
-    · rw [hc] at hpre
-      simp only [List.length_cons, List.length_nil, Nat.zero_add, List.take_succ_cons, List.cons.injEq] at hpre
-      exact absurd hpre.1 hne
-    · subst k1
-      simp only []
-      exact relF_m s2 _ g2 he2 ⟨c, t, by rw [v2, hc], hne⟩
-    · subst k1
-      simp only []
-      exact relF_flt s2 _ k2
-
 theorem refF_dict (fuel : Nat) (ih : RefAtF d e0 src sf fuel) :
     ∀ lat depth s, GoodF d e0 lat s →
-      RelF d e0 lat true T (readDictBuf src sf (fuel + 1) depth s) (readDict (fuel + 1) depth (view d s)) := by
+      RelF d e0 lat T (readDictBuf src sf (fuel + 1) depth s) (readDict (fuel + 1) depth (view d s)) := by
   obtain ⟨ihO, ihA, ihAL, ihD, ihDL⟩ := ih
   intro lat depth s gs
   unfold readDictBuf readDict
@@ -759,7 +724,7 @@ include h hsf
 
 theorem refF_object (fuel : Nat) (ih : RefAtF d e0 src sf fuel) :
     ∀ lat depth s, GoodF d e0 lat s →
-      RelF d e0 lat true T (readObjectBuf src sf (fuel + 1) depth s) (readObject (fuel + 1) depth (view d s)) := by
+      RelF d e0 lat T (readObjectBuf src sf (fuel + 1) depth s) (readObject (fuel + 1) depth (view d s)) := by
   obtain ⟨ihO, ihA, ihAL, ihD, ihDL⟩ := ih
   intro lat depth s gs
   obtain ⟨s1, buf, err, hp, g1, v1, _, hadv, hout⟩ := peekAdvF h 5 (by decide) s gs
@@ -809,17 +774,16 @@ theorem refF_object (fuel : Nat) (ih : RefAtF d e0 src sf fuel) :
       rw [hv1] at R
       generalize readNameBuf src sf s1 = q at R
       obtain ⟨s2, res⟩ := q
-      rcases relF_cases R with ⟨v, r, rfl, hm, g2, v2⟩ | ⟨e, rfl, hm, g2, _⟩ | ⟨rfl, gl⟩ | ⟨_, rfl, gl, he, hn⟩
+      rcases relF_cases R with ⟨v, r, rfl, hm, g2, v2⟩ | ⟨e, rfl, hm, g2, _⟩ | ⟨rfl, gl⟩
       · rw [hm]; simp only [Except.map]; exact relF_ok s2 _ _ g2 v2
       · rw [hm]; simp only [Except.map]; exact relF_err s2 _ g2 trivial
       · simp only []; exact relF_flt s2 _ gl
-      · simp only []; exact relF_m s2 _ gl he hn
     simp only [h4, Bool.false_eq_true, if_false]
     by_cases h5 : (isDigit c || c == 43 || c == 45 || c == 46) = true
     · simp only [h5, if_true]
       have R := readNumber_fault h hsf s1 g1
       rw [hv1] at R
-      exact relF_weaken (fun _ _ hE => hE) R
+      exact R
     simp only [h5, Bool.false_eq_true, if_false]
     by_cases h6 : (c == 60 && rest.head? == some 60) = true
     · simp only [h6, if_true]
@@ -827,15 +791,14 @@ theorem refF_object (fuel : Nat) (ih : RefAtF d e0 src sf fuel) :
       rw [hv1] at RD
       generalize readDictBuf src sf fuel depth s1 = q at RD
       obtain ⟨s2, rd⟩ := q
-      rcases relF_cases RD with ⟨dd, r, rfl, hm, g2, v2⟩ | ⟨e, rfl, hm, g2, _⟩ | ⟨rfl, gl⟩ | ⟨_, rfl, gl, he, hn⟩
+      rcases relF_cases RD with ⟨dd, r, rfl, hm, g2, v2⟩ | ⟨e, rfl, hm, g2, _⟩ | ⟨rfl, gl⟩
       · rw [hm]
         simp only []
         have := objAfterDictF h hsf dd lat s2 g2
         rw [v2] at this
-        exact relF_weaken (fun _ _ hE => hE) this
+        exact this
       · rw [hm]; simp only []; exact relF_err s2 _ g2 trivial
       · simp only []; exact relF_flt s2 _ gl
-      · simp only []; exact relF_m s2 _ gl he hn
     simp only [h6, Bool.false_eq_true, if_false]
     by_cases h7 : (c == 40) = true
     · simp only [h7, if_true]
@@ -843,11 +806,10 @@ theorem refF_object (fuel : Nat) (ih : RefAtF d e0 src sf fuel) :
       rw [hadv1.2] at R
       generalize readStringBuf src sf (adv 1 s1) = q at R
       obtain ⟨s2, res⟩ := q
-      rcases relF_cases R with ⟨v, r, rfl, hm, g2, v2⟩ | ⟨e, rfl, hm, g2, _⟩ | ⟨rfl, gl⟩ | ⟨hd, _⟩
+      rcases relF_cases R with ⟨v, r, rfl, hm, g2, v2⟩ | ⟨e, rfl, hm, g2, _⟩ | ⟨rfl, gl⟩
       · rw [hm]; simp only [Except.map]; exact relF_ok s2 _ _ g2 v2
       · rw [hm]; simp only [Except.map]; exact relF_err s2 _ g2 trivial
       · simp only []; exact relF_flt s2 _ gl
-      · cases hd
     simp only [h7, Bool.false_eq_true, if_false]
     by_cases h8 : (c == 60) = true
     · simp only [h8, if_true]
@@ -855,11 +817,10 @@ theorem refF_object (fuel : Nat) (ih : RefAtF d e0 src sf fuel) :
       rw [hadv1.2] at R
       generalize readHexStringBuf src sf (adv 1 s1) = q at R
       obtain ⟨s2, res⟩ := q
-      rcases relF_cases R with ⟨v, r, rfl, hm, g2, v2⟩ | ⟨e, rfl, hm, g2, _⟩ | ⟨rfl, gl⟩ | ⟨hd, _⟩
+      rcases relF_cases R with ⟨v, r, rfl, hm, g2, v2⟩ | ⟨e, rfl, hm, g2, _⟩ | ⟨rfl, gl⟩
       · rw [hm]; simp only [Except.map]; exact relF_ok s2 _ _ g2 v2
       · rw [hm]; simp only [Except.map]; exact relF_err s2 _ g2 trivial
       · simp only []; exact relF_flt s2 _ gl
-      · cases hd
     simp only [h8, Bool.false_eq_true, if_false]
     by_cases h9 : (c == 91) = true
     · simp only [h9, if_true]
@@ -867,11 +828,10 @@ theorem refF_object (fuel : Nat) (ih : RefAtF d e0 src sf fuel) :
       rw [hadv1.2] at R
       generalize readArrayBuf src sf fuel depth (adv 1 s1) = q at R
       obtain ⟨s2, res⟩ := q
-      rcases relF_cases R with ⟨v, r, rfl, hm, g2, v2⟩ | ⟨e, rfl, hm, g2, _⟩ | ⟨rfl, gl⟩ | ⟨_, rfl, gl, he, hn⟩
+      rcases relF_cases R with ⟨v, r, rfl, hm, g2, v2⟩ | ⟨e, rfl, hm, g2, _⟩ | ⟨rfl, gl⟩
       · rw [hm]; simp only [Except.map]; exact relF_ok s2 _ _ g2 v2
       · rw [hm]; simp only [Except.map]; exact relF_err s2 _ g2 trivial
       · simp only []; exact relF_flt s2 _ gl
-      · simp only []; exact relF_m s2 _ gl he hn
     simp only [h9, Bool.false_eq_true, if_false]
     exact relF_err s1 _ g1 trivial
 
@@ -890,45 +850,28 @@ end
     serves the bytes `d` and may fail with a non-EOF, non-malformed error `e0` at any call, any
     number of times, with or without bytes delivered together with the error; any scanner state
     reachable on it (`GoodF`; `lat` says whether the reader has already failed), any nesting depth,
-    any fuel.  Then `ReadObject` over the 1024-byte window ends in one of three ways:
+    any fuel.  Then `ReadObject` over the 1024-byte window ends in one of two ways:
 
     * `RelA`: the outcome of the whole-input model `readObject` on the bytes not yet consumed — the
       same value, and the scanner stands at the model's remaining input; or the same error;
-    * `FltB`: it returns the reader's error `e0` (and `scanner.err = e0`);
-    * `FltM` (finding ROB-7, the only remaining place where `scanner.go` drops the error of a
-      `PeekN`: `buf, _ := s.PeekN(3)` in `tryHex`): it returns a MALFORMED-file error, the reader's
-      error is latched, and a `#` of the data lies among the last two bytes the reader delivered
-      before it failed (`HashEdge`: `d[p] = '#'`, `p < srcOff < p + 3`) — the escape could not be
-      looked at, the `#` was kept literally and the name ran into `maxNameBytes`.
+    * `FltB`: it returns the reader's error `e0` (and `scanner.err = e0`).
 
-    In all three cases the state is coherent: no modelled Go panic, no exhausted loop fuel.
-    (Before fix D35 = ROB-6 there was a fourth outcome: a stream's dictionary returned as a plain
-    dictionary with a nil error.) -/
+    In both cases the state is coherent: no modelled Go panic, no exhausted loop fuel.
+    (Before the fixes of findings ROB-6 and ROB-7 — the dropped errors of `PeekN(6)` behind a
+    dictionary and of `PeekN(3)` in `tryHex` — the proof needed a third outcome.) -/
 theorem readObject_fault {d : Bytes} {e0 : Err} {src : Source} (h : FaultyOver d e0 src) (hm0 : e0 ≠ .malformed)
     {sf : Nat} (hsf : d.length + 2 ≤ sf) (fuel depth : Nat) (lat : Bool) (s : SB) (gs : GoodF d e0 lat s) :
-    RelF d e0 lat true T (readObjectBuf src sf fuel depth s) (readObject fuel depth (view d s)) :=
+    RelA d e0 lat T (readObjectBuf src sf fuel depth s) (readObject fuel depth (view d s)) ∨
+    FltB d e0 (readObjectBuf src sf fuel depth s) :=
   (refF_all h hsf hm0 fuel).1 lat depth s gs
 
-/-- data without a `#`: the fault-free outcome or the reader's error, nothing else -/
-theorem readObject_fault_nohash {d : Bytes} {e0 : Err} {src : Source} (h : FaultyOver d e0 src) (hm0 : e0 ≠ .malformed)
-    {sf : Nat} (hsf : d.length + 2 ≤ sf) (fuel depth : Nat) (lat : Bool) (s : SB) (gs : GoodF d e0 lat s)
-    (hno : 35 ∉ d) :
-    RelA d e0 lat T (readObjectBuf src sf fuel depth s) (readObject fuel depth (view d s)) ∨
-    FltB d e0 (readObjectBuf src sf fuel depth s) := by
-  rcases readObject_fault h hm0 hsf fuel depth lat s gs with a | b | c
-  · exact Or.inl a
-  · exact Or.inr b
-  · obtain ⟨p, hp, _⟩ := c.2.2.2.1
-    exact absurd (List.mem_of_getElem? hp) hno
-
-/-- whenever `ReadObject` returns a value, it is the fault-free value at the fault-free position
-    (a wrong value is never returned, with or without a latched error) -/
+/-- whenever `ReadObject` returns a value, it is the fault-free value at the fault-free position -/
 theorem readObject_fault_value {d : Bytes} {e0 : Err} {src : Source} (h : FaultyOver d e0 src) (hm0 : e0 ≠ .malformed)
     {sf : Nat} (hsf : d.length + 2 ≤ sf) (fuel depth : Nat) (lat : Bool) (s : SB) (gs : GoodF d e0 lat s) (v : Obj)
     (hv : (readObjectBuf src sf fuel depth s).2 = .ok v) :
     ∃ rest, readObject fuel depth (view d s) = .ok (v, rest) ∧
       view d (readObjectBuf src sf fuel depth s).1 = rest ∧ GoodF d e0 lat (readObjectBuf src sf fuel depth s).1 := by
-  rcases readObject_fault h hm0 hsf fuel depth lat s gs with a | b | c
+  rcases readObject_fault h hm0 hsf fuel depth lat s gs with a | b
   · unfold RelA at a
     generalize readObject fuel depth (view d s) = m at a
     cases m with
@@ -940,26 +883,21 @@ theorem readObject_fault_value {d : Bytes} {e0 : Err} {src : Source} (h : Faulty
       cases hv
       exact ⟨rest, rfl, a.2.2, a.2.1⟩
   · rw [b.1] at hv; cases hv
-  · rw [c.2.1] at hv; cases hv
 
 /-- the same for a fresh scanner, spelled out: `ReadObject` returns what `parseObject d` says
-    (value and `CurrentPos`, or error), or the reader's error, or the ROB-7 outcome; never a panic,
-    never a hang -/
+    (value and `CurrentPos`, or error), or the reader's error; never a panic, never a hang -/
 theorem readObject_fault_fresh {d : Bytes} {e0 : Err} {src : Source} (h : FaultyOver d e0 src) (hm0 : e0 ≠ .malformed)
     {sf : Nat} (hsf : d.length + 2 ≤ sf) :
     ((readObjectBuf src sf (scanFuel d) 0 (SB.init 0)).1.panicked = false ∧
      (readObjectBuf src sf (scanFuel d) 0 (SB.init 0)).1.hang = false) ∧
     (observe (readObjectBuf src sf (scanFuel d) 0 (SB.init 0)) = lift d (parseObject d) ∨
-     (readObjectBuf src sf (scanFuel d) 0 (SB.init 0)).2 = .error e0 ∨
-     ((readObjectBuf src sf (scanFuel d) 0 (SB.init 0)).2 = .error .malformed ∧
-      (readObjectBuf src sf (scanFuel d) 0 (SB.init 0)).1.err = some e0 ∧
-      HashEdge d (readObjectBuf src sf (scanFuel d) 0 (SB.init 0)).1)) := by
+     (readObjectBuf src sf (scanFuel d) 0 (SB.init 0)).2 = .error e0) := by
   have R := readObject_fault h hm0 hsf (scanFuel d) 0 false (SB.init 0) (goodF_init d e0)
   rw [view_init] at R
   unfold parseObject
   generalize readObject (scanFuel d) 0 d = m at R
   generalize readObjectBuf src sf (scanFuel d) 0 (SB.init 0) = r at R
-  rcases R with a | b | c
+  rcases R with a | b
   · unfold RelA at a
     unfold observe lift
     cases m with
@@ -977,20 +915,17 @@ theorem readObject_fault_fresh {d : Bytes} {e0 : Err} {src : Source} (h : Faulty
       rw [a3] at this
       congr 2
       omega
-  · exact ⟨⟨b.2.nopanic, b.2.coh.nohang⟩, Or.inr (Or.inl b.1)⟩
-  · obtain ⟨_, c1, c2, c3, _⟩ := c
-    exact ⟨⟨c2.nopanic, c2.coh.nohang⟩, Or.inr (Or.inr ⟨c1, c2.lat rfl, c3⟩)⟩
+  · exact ⟨⟨b.2.nopanic, b.2.coh.nohang⟩, Or.inr b.1⟩
 
-/-- the contrapositive that callers can use: if no reader error is recorded in the scanner after
-    `ReadObject`, then its outcome is exactly the fault-free one -/
+/-- if no reader error is recorded in the scanner after `ReadObject`, then its outcome is exactly
+    the fault-free one -/
 theorem readObject_clean {d : Bytes} {e0 : Err} {src : Source} (h : FaultyOver d e0 src) (hm0 : e0 ≠ .malformed)
     {sf : Nat} (hsf : d.length + 2 ≤ sf) (fuel depth : Nat) (lat : Bool) (s : SB) (gs : GoodF d e0 lat s)
     (hclean : (readObjectBuf src sf fuel depth s).1.err = none) :
     RelA d e0 lat T (readObjectBuf src sf fuel depth s) (readObject fuel depth (view d s)) := by
-  rcases readObject_fault h hm0 hsf fuel depth lat s gs with a | b | c
+  rcases readObject_fault h hm0 hsf fuel depth lat s gs with a | b
   · exact a
   · have := b.2.lat rfl; rw [hclean] at this; cases this
-  · have := c.2.2.1.lat rfl; rw [hclean] at this; cases this
 
 /-! ## Non-vacuity -/
 
@@ -1010,21 +945,21 @@ example : (match observe (readObjectBuf (faultySrc exD 3 (.fromK 30 0) .io) (exD
 /-- `<</A 1>>` newline `stream` newline -/
 def exStream : Bytes := [60, 60, 47, 65, 32, 49, 62, 62, 10, 115, 116, 114, 101, 97, 109, 10]
 
--- former finding ROB-6 (fixed as D35): one byte per call, the reader fails inside the keyword `stream`
--- (call 12); `ReadObject` now returns the reader's error (before the fix: the plain dictionary and no error)
+-- former finding ROB-6: one byte per call, the reader fails inside the keyword `stream` (call 12);
+-- `ReadObject` returns the reader's error (before the fix: the plain dictionary and no error)
 example : (match (readObjectBuf (faultySrc exStream 1 (.fromK 12 0) .io) (exStream.length + 2) (scanFuel exStream) 0 (SB.init 0)) with
     | (s, .error .io) => s.err == some .io
     | _ => false) = true := by
   decide +kernel
 
-/-- `/A#41` blank -/
-def exHash : Bytes := [47, 65, 35, 52, 49, 32]
+/-- `/AAAA#41` blank -/
+def exHash : Bytes := [47, 65, 65, 65, 65, 35, 52, 49, 32]
 
--- the dropped error of `tryHex` (ROB-7) below the cap: the reader fails behind `#4` (one byte per call, call 4);
--- `HashEdge` holds (`#` at offset 2, `srcOff = 4`), the `#` is kept literally, and the next `PeekN(1)`
--- reports the reader's error
-example : (match (readObjectBuf (faultySrc exHash 1 (.fromK 4 0) .io) (exHash.length + 2) (scanFuel exHash) 0 (SB.init 0)) with
-    | (s, .error .io) => s.srcOff == 4 && exHash[2]? == some 35
+-- former finding ROB-7: one byte per call, the reader fails behind `#4` (call 7): `tryHex` hands the
+-- error of its `PeekN(3)` to `ReadName`, the scanner still stands on the `#` (before the fix: the `#`
+-- was kept literally and the name went on)
+example : (match (readObjectBuf (faultySrc exHash 1 (.fromK 7 0) .io) (exHash.length + 2) (scanFuel exHash) 0 (SB.init 0)) with
+    | (s, .error .io) => s.err == some .io && s.pos + s.filePos == 5
     | _ => false) = true := by
   decide +kernel
 
